@@ -387,11 +387,12 @@ def eval_char_pred(prog, fn, ch, depth=0):
                     feasible = False
             elif cond.kind == "binop":
                 rv = cond.data
-                c = op_const(rv["b"]) or op_const(rv["a"])
+                cb_, ca_ = op_const(rv["b"]), op_const(rv["a"])
+                c = cb_ or ca_
                 if c is None or "int" not in c:
                     return None
-                eq = (ord(ch) == c["int"])
-                val = eq if rv["binop"] == "Eq" else (not eq) if rv["binop"] == "Ne" else None
+                x, y = (ord(ch), c["int"]) if cb_ is not None else (c["int"], ord(ch))
+                val = {"Eq": x == y, "Ne": x != y, "Lt": x < y, "Le": x <= y, "Gt": x > y, "Ge": x >= y}.get(rv["binop"])
                 if val is None:
                     return None
                 if branch_truth(taken) != val:
